@@ -156,6 +156,13 @@ func c07Run(c *core.Ctx, k c07Cfg) {
 	if r.Intn(2) == 0 {
 		sess.EduPersonPrincipalName = c07Str(c)
 	}
+	// every optional field is independently absent in a quarter of the sessions: which attributes appear must depend on
+	// each field alone
+	for _, f := range []*string{&sess.UserName, &sess.UserEmail, &sess.UserCommonName, &sess.UserSurname, &sess.UserGivenName, &sess.UserScopedAffiliation, &sess.SubjectID} {
+		if r.Intn(4) == 0 {
+			*f = ""
+		}
+	}
 	for i := r.Intn(4); i > 0; i-- {
 		sess.Groups = append(sess.Groups, c07Str(c))
 	}
@@ -344,6 +351,12 @@ func c07Run(c *core.Ctx, k c07Cfg) {
 	if sess.SubjectID != "" {
 		must["urn:oasis:names:tc:SAML:attribute:subject-id"] = sess.SubjectID
 	}
+	if sess.UserScopedAffiliation != "" {
+		must["urn:oid:1.3.6.1.4.1.5923.1.1.1.9"] = sess.UserScopedAffiliation
+	}
+	if sess.EduPersonPrincipalName != "" { // the session's own principal name, whatever else the session has or lacks
+		must["urn:oid:1.3.6.1.4.1.5923.1.1.1.6"] = sess.EduPersonPrincipalName
+	}
 	for name, want := range must {
 		found := false
 		for _, a := range gotAttrs {
@@ -353,6 +366,27 @@ func c07Run(c *core.Ctx, k c07Cfg) {
 		}
 		if !found {
 			c.Violation("C07/session-value-lost/"+strClass(want), fmt.Sprintf("attribute %s does not carry the session value %q (%s)", name, want, desc), replay)
+			return
+		}
+	}
+	// custom attributes arrive as they are, in order (an independent statement; wantAttrs above comes from the maker itself)
+	gi := 0
+	for _, ca := range sess.CustomAttributes {
+		found := false
+		for ; gi < len(gotAttrs) && !found; gi++ {
+			a := gotAttrs[gi]
+			if a.Name != ca.Name || a.FriendlyName != ca.FriendlyName || a.NameFormat != ca.NameFormat || len(a.Values) != len(ca.Values) {
+				continue
+			}
+			found = true
+			for i := range a.Values {
+				if a.Values[i].Value != ca.Values[i].Value {
+					found = false
+				}
+			}
+		}
+		if !found && !strings.ContainsRune(ca.Name+ca.FriendlyName+ca.NameFormat, '\r') {
+			c.Violation("C07/custom-attribute-lost", fmt.Sprintf("custom attribute %q (%d values) does not arrive as configured, in order (%s)", ca.Name, len(ca.Values), desc), replay)
 			return
 		}
 	}
